@@ -142,6 +142,14 @@ func checkResult(z *SC, exp *big.Int) string {
 	if z.IsZero() != wz {
 		return fmt.Sprintf("IsZero of result = %d, model %d", z.IsZero(), wz)
 	}
+	// the encoding handed out belongs to the caller: writing into it changes no later encoding
+	got := z.Bytes()
+	for i := range got {
+		got[i] ^= 0x5a
+	}
+	if again := z.Bytes(); !bytes.Equal(again, ref.B32(exp)) {
+		return fmt.Sprintf("after the caller wrote into a returned encoding, Bytes() = %x, model %x (the encoder hands out shared memory)", again, ref.B32(exp))
+	}
 	return ""
 }
 
